@@ -12,8 +12,8 @@ ENGINES = [
     {"name": "conc", "path": "lean/Fbr/Conc.lean lean/Fbr/ConcShow.lean lean/Fbr/Lemmas/Conc*.lean lean/Drv/Conc.lean harness/src/bin/conc.rs",
      "serves_properties": ["C09"],
      "kind_free_text": "Lean 4 small-step model of concurrent do_lookup/forget_one with an invariant proved for any number of threads and any schedule; schedule-replay harness over hook H1 (threads parked at yield points, one released per step), random and exhaustive schedules"},
-    {"name": "xport", "path": "lean/Fbr/Xport.lean lean/Fbr/XportSys.lean lean/Fbr/XportSpec.lean lean/Fbr/Lemmas/Xport*.lean lean/Drv/Xport.lean harness/src/bin/xport.rs harness/src/xscript.rs harness/src/vq.rs",
-     "serves_properties": ["C04", "C17"],
+    {"name": "xport", "path": "lean/Fbr/Xport.lean lean/Fbr/XportSys.lean lean/Fbr/XportSpec.lean lean/Fbr/Lemmas/Xport*.lean lean/Drv/Xport.lean harness/src/bin/xport.rs harness/src/xscript.rs harness/src/vq.rs lean/Fbr/FileIo.lean lean/Fbr/Lemmas/FileIo.lean lean/Drv/FileIo.lean harness/src/bin/fileio.rs",
+     "serves_properties": ["C04", "C17", "C20"],
      "kind_free_text": "Lean 4 model of IoBuffers/Reader/VirtioFsWriter/FuseDevWriter/FileVolatileSlice and the dirty bitmap, refined to a flat address list + cursor, with invariants proved over arbitrary operation lists; differential harness over mock virtqueue chains in GuestMemoryMmap<AtomicBitmap> (page sizes 2/64/4096), a SOCK_SEQPACKET stand-in for /dev/fuse and scripted files with short counts"},
     {"name": "srv", "path": "lean/Fbr/Wire.lean lean/Fbr/Srv.lean lean/Fbr/SrvAsync.lean lean/Fbr/SrvShow.lean lean/Fbr/SrvSpec.lean lean/Fbr/Lemmas/Srv*.lean lean/Fbr/Lemmas/Wire.lean lean/Drv/Srv.lean lean/Drv/SrvAsync.lean harness/src/bin/srv.rs harness/src/bin/initfs.rs lean/Fbr/InitFs.lean lean/Drv/InitFs.lean harness/src/scriptfs*.rs harness/src/srvgen.rs harness/src/srvoracle.rs harness/src/vq.rs",
      "serves_properties": ["C01", "C02", "C03", "C12", "C20"],
